@@ -1552,3 +1552,31 @@ func (b *B) TDistCDF(rule string) {
 		_ = S
 	})
 }
+
+// AnyOf: the construct may legitimately have one of several shapes (e.g. a
+// table filled from a running product or from its own previous entry). The
+// alternatives are tried in order; the obligations of the first one that
+// raises no failure are kept. When none succeeds, the obligations of the
+// first alternative (the shape of the pinned tree) are reported.
+func (b *B) AnyOf(alts ...func()) {
+	r := b.R
+	var first []*Obligation
+	for i, alt := range alts {
+		mark := len(r.Obs)
+		alt()
+		bad := false
+		for _, o := range r.Obs[mark:] {
+			if o.st != Discharged {
+				bad = true
+			}
+		}
+		if !bad && len(r.Obs) > mark {
+			return
+		}
+		if i == 0 {
+			first = append([]*Obligation{}, r.Obs[mark:]...)
+		}
+		r.Obs = r.Obs[:mark]
+	}
+	r.Obs = append(r.Obs, first...)
+}
